@@ -24,7 +24,7 @@ x case kinds
           (MIPGap, SolutionLimit, Cutoff, MIPGapAbs, BestObjStop, TimeLimit, NodeLimit+Heuristics,
           MIPGap+SolutionLimit; thorough adds IterationLimit, WorkLimit, BestBdStop, IntFeasTol+FeasibilityTol,
           Presolve+Method and the front-end pairs lp/ro, ro/lp); interfaces that ignore params get three of them
-          (all of them in the thorough tier).  Only the call s1 passes parameters.
+          (the first eight in the thorough tier).  Only the call s1 passes parameters.
 
 Oracle.
     reference for LP/MILP: SciPy-HiGHS called directly on a snapshot of the compiled program, binaries read as
@@ -524,7 +524,7 @@ def _hist_cases(thorough, pal):
                     for i2 in ['grb', 'def', 'ort', 'eco']:
                         if i2 == 'eco' and _nint(P) > 3:
                             continue
-                        for pname in (pnames if (i1 == 'grb' or thorough) else HP_OTHER_QUICK):
+                        for pname in (pnames if i1 == 'grb' else HP_QUICK if thorough else HP_OTHER_QUICK):
                             yield {'kind': 'hist', 'P': P, 'Q': Q, 'first': [i1, pname], 'second': i2}
 
 
@@ -584,7 +584,7 @@ def bounds(tier):
             'milp_integer_bound_kinds': list(IKIND), 'milp_continuous_bound_kinds': ['box'] + list(CKIND), 'palettes': 4 if th else 1,
             'interfaces': IFACES, 'front_ends': ['ro', 'lp', 'dro'] if th else ['ro', 'lp'],
             'ecos_bb_max_integer_vars': 3,
-            'hist_params': list(HPARAMS) if th else HP_QUICK, 'hist_params_for_ignoring_interfaces': list(HPARAMS) if th else HP_OTHER_QUICK,
+            'hist_params': list(HPARAMS) if th else HP_QUICK, 'hist_params_for_ignoring_interfaces': HP_QUICK if th else HP_OTHER_QUICK,
             'hist_second_models': HP_MODELS_P, 'hist_first_models': HP_MODELS_Q,
             'hist_front_end_pairs': ['ro/ro', 'lp/ro', 'ro/lp'] if th else ['ro/ro'],
             'hist_calls_per_case': 5, 'hist_interface_pairs': 'all 16 ordered (first, second), ECOS only with <= 3 integer variables'}
